@@ -441,7 +441,7 @@ Proof.
     pose proof (ev_king p Hlegal true k0 K1 K2 K3) as Hkg. change (mode_of true) with 1 in Hkg. rewrite Hkg. cbn [bind].
     pose proof (ev_moves p Hlegal evt true) as Hmg. change (mode_of true) with 1 in Hmg. rewrite Hmg.
     cbn [bind seq map concat comp comp_keep]. unfold tmask.
-    rewrite !Htrue, !app_nil_r, <- !app_assoc. reflexivity. }
+    rewrite (Htrue (ep_comp DW)), (Htrue (ep_comp DE)), !app_nil_r, <- !app_assoc. reflexivity. }
   assert (Hq : (do a <- gen_pawn_moves prom_nq v 2 true evt; do k <- gen_king_moves v 2 true;
                 do m <- gen_moves v 2 true evt; Some (a ++ k ++ m)) =
                Some (concat (map (fun k => filter (comp_keep k) (comp k)) (seq 9 6)))).
@@ -450,7 +450,7 @@ Proof.
     pose proof (ev_king p Hlegal false k0 K1 K2 K3) as Hkg. change (mode_of false) with 2 in Hkg. rewrite Hkg. cbn [bind].
     pose proof (ev_moves p Hlegal evt false) as Hmg. change (mode_of false) with 2 in Hmg. rewrite Hmg.
     cbn [bind seq map concat comp comp_keep app]. unfold tmask.
-    rewrite !Hfalse, !app_nil_r, <- !app_assoc. cbn [app]. reflexivity. }
+    rewrite (Hfalse (castle_list p)), !app_nil_r, <- !app_assoc. cbn [app]. reflexivity. }
   destruct (has_nq mode), (has_q mode); cbn [bind app]; rewrite ?Hnq; cbn [bind app]; rewrite ?Hq; cbn [bind app];
     rewrite ?map_app, ?concat_app, ?app_nil_r; reflexivity.
 Qed.
